@@ -6,6 +6,7 @@
 mod areas;
 mod astwire;
 mod objwire;
+mod simwire;
 mod ctx;
 mod dump_os;
 mod rng;
